@@ -1,15 +1,17 @@
 #!/usr/bin/env python3
-"""Verify and ingest sub-agent results from /tmp/seed_out2 into /verif/seeded and /verif/seeded_benign.
-usage: tools/ingest.py [names...]   (names like C09 or R3; default: everything present and not yet ingested)"""
+"""Verify and ingest sub-agent results (default /tmp/seed_out2) into /verif/seeded and /verif/seeded_benign.
+usage: tools/ingest.py [--src DIR] [--wt DIR] [names...]   (names like C09 or R3; default: everything present and not yet ingested)"""
 import json, os, shutil, subprocess, sys, glob
 from concurrent.futures import ThreadPoolExecutor
 VERIF = os.path.dirname(os.path.dirname(os.path.abspath(__file__)))
-SRC = "/tmp/seed_out2"
-names = sys.argv[1:] or sorted(os.listdir(SRC))
+_a = sys.argv[1:]
+SRC = _a[_a.index("--src") + 1] if "--src" in _a else "/tmp/seed_out2"
+WT = _a[_a.index("--wt") + 1] if "--wt" in _a else "/tmp/seed"
+names = [x for i, x in enumerate(_a) if not x.startswith("--") and (i == 0 or _a[i - 1] not in ("--src", "--wt"))] or sorted(os.listdir(SRC))
 
 def one(name):
     out = []
-    wt = f"/tmp/seed/{name}"
+    wt = f"{WT}/{name}"
     if not os.path.isdir(wt):
         subprocess.run(["git", "-C", "/repo", "worktree", "add", "--detach", wt, "HEAD", "-q"], capture_output=True)
     benign = name.startswith("R")
